@@ -32,6 +32,16 @@ type rtSock struct {
 	log     []string
 	inbound chan knxnet.Service
 	closed  bool
+	// a rule-following gateway for tunnelling requests (nil: requests are only recorded)
+	gw *rtGateway
+}
+
+// rtGateway: accepts the expected sequence number (bus), acknowledges it, acknowledges a repetition
+// of the previous one again, ignores everything else
+type rtGateway struct {
+	expected uint8
+	bus      []int
+	seen     []string
 }
 
 func (s *rtSock) us() int64 { return int64(time.Since(s.start) / time.Microsecond) }
@@ -49,6 +59,32 @@ func (s *rtSock) Send(p knxnet.ServicePackable) error {
 			defer func() { recover() }()
 			s.inbound <- &knxnet.ConnRes{Channel: 7, Status: 0, Control: knxnet.HostInfo{Protocol: knxnet.UDP4}}
 		}()
+	case *knxnet.TunnelReq:
+		s.mu.Lock()
+		gw := s.gw
+		var ack *knxnet.TunnelRes
+		if gw != nil {
+			gw.seen = append(gw.seen, fmt.Sprintf("%d:%d", f.SeqNumber, pidOf(f.Payload)))
+			switch f.SeqNumber {
+			case gw.expected:
+				gw.bus = append(gw.bus, pidOf(f.Payload))
+				gw.expected++
+				ack = &knxnet.TunnelRes{Channel: f.Channel, SeqNumber: f.SeqNumber}
+			case gw.expected - 1:
+				ack = &knxnet.TunnelRes{Channel: f.Channel, SeqNumber: f.SeqNumber}
+			}
+		}
+		s.mu.Unlock()
+		if ack != nil {
+			go func() {
+				defer func() { recover() }()
+				time.Sleep(300 * time.Microsecond) // an exchange takes a while: other senders pile up behind it
+				select {
+				case s.inbound <- ack:
+				case <-time.After(2 * time.Second):
+				}
+			}()
+		}
 	}
 	return nil
 }
@@ -288,4 +324,66 @@ func runOrderRT(t *testing.T, line string) string {
 		first = "-"
 	}
 	return fmt.Sprintf("rounds=%d bad=%d first=%s", rounds, bad, first)
+}
+
+// A concurrent-senders script for the tunnel, run in REAL time against a rule-following, loss-free
+// gateway:   swrt <senders> <per sender>
+// Trace: bus=<pids in bus order> ok=<pids whose Send returned nil, sorted> failed=<n> seen=<seq:pid of every request, in order>
+func runTunnelRT(t *testing.T, line string) string {
+	f := strings.Fields(line)
+	if len(f) != 3 {
+		return "bad-script"
+	}
+	senders, _ := strconv.Atoi(f[1])
+	per, _ := strconv.Atoi(f[2])
+	sock := &rtSock{start: time.Now(), inbound: make(chan knxnet.Service), gw: &rtGateway{}}
+	tun, err := knx.VerifNewTunnel(sock, knxnet.TunnelLayerData, knx.TunnelConfig{
+		ResendInterval: 40 * time.Millisecond, ResponseTimeout: 250 * time.Millisecond, HeartbeatInterval: time.Hour})
+	if err != nil {
+		return "connect-failed " + err.Error()
+	}
+	go func() {
+		for range tun.Inbound() {
+		}
+	}()
+	var mu sync.Mutex
+	var ok []int
+	failed := 0
+	var wg sync.WaitGroup
+	begin := make(chan struct{})
+	for s := 0; s < senders; s++ {
+		wg.Add(1)
+		go func(s int) {
+			defer wg.Done()
+			<-begin
+			for k := 0; k < per; k++ {
+				pid := s*1000 + k + 1
+				err := tun.Send(payload(pid, false))
+				mu.Lock()
+				if err == nil {
+					ok = append(ok, pid)
+				} else {
+					failed++
+				}
+				mu.Unlock()
+			}
+		}(s)
+	}
+	close(begin)
+	fin := make(chan struct{})
+	go func() { wg.Wait(); close(fin) }()
+	stuck := ""
+	select {
+	case <-fin:
+	case <-time.After(15 * time.Second):
+		stuck = " stuck"
+	}
+	sock.Close()
+	sock.mu.Lock()
+	defer sock.mu.Unlock()
+	mu.Lock()
+	defer mu.Unlock()
+	sort.Ints(ok)
+	return fmt.Sprintf("bus=%s ok=%s failed=%d seen=%s%s", strings.ReplaceAll(fmt.Sprint(sock.gw.bus), " ", ","),
+		strings.ReplaceAll(fmt.Sprint(ok), " ", ","), failed, strings.Join(sock.gw.seen, ","), stuck)
 }
